@@ -46,8 +46,9 @@ def equivalent_layers(h, p, L, w=None):
     if w is not None:
         w_el = numpy.zeros(L)
 
-    hstep = (h.max()-h.min())/L
-    alt_bins = numpy.arange(h.min(), h.max(), hstep)
+    # lower edges of L equal-thickness slabs.  (numpy.arange(hmin, hmax, (hmax-hmin)/L) can return L+1
+    # edges when the division rounds, which puts the top layer in no slab at all.)
+    alt_bins = numpy.linspace(h.min(), h.max(), L, endpoint=False)
     ix = numpy.digitize(h, alt_bins)
     for i in range(L):
         ix_tmp = ix==i+1
